@@ -56,7 +56,8 @@ func genDescriptor(t *rapid.T, maxBody int) ref.Descriptor {
 	case 5: // stream identifier
 		return ref.Descriptor{Tag: 0x52, Body: []byte{rapid.Byte().Draw(t, "sid")}}
 	default:
-		tag := rapid.SampledFrom([]byte{0x02, 0x03, 0x09, 0x0B, 0x0C, 0x0D, 0x28, 0x97, 0xC0, 0xFE, 0x11, 0x40, 0x86}).Draw(t, "tag")
+		// incl. the DVB / ATSC descriptors that announce a codec carried in a private stream (AC-3, E-AC-3, DTS, AAC, subtitling, teletext)
+		tag := rapid.SampledFrom([]byte{0x02, 0x03, 0x09, 0x0B, 0x0C, 0x0D, 0x28, 0x97, 0xC0, 0xFE, 0x11, 0x40, 0x86, 0x6A, 0x7A, 0x6A, 0x7A, 0x7B, 0x7C, 0x81, 0xCC, 0x56, 0x59}).Draw(t, "tag")
 		n := rapid.IntRange(0, min(40, maxBody)).Draw(t, "body-len")
 		return ref.Descriptor{Tag: tag, Body: genBytes(t, n, n, "body")}
 	}
@@ -109,6 +110,12 @@ func genPMT(t *rapid.T, minStreams, maxStreams int) *ref.PMT {
 		}
 		used[s.PID] = true
 		s.Descs = genDescriptors(t, 4, &budget)
+		if (s.StreamType == 0x06 || s.StreamType >= 0x80) && budget >= 6 && rapid.IntRange(0, 2).Draw(t, "codec-desc") == 0 {
+			// a private stream announcing its codec through a descriptor: the stream_type reported stays the one carried
+			d := ref.Descriptor{Tag: rapid.SampledFrom([]byte{0x6A, 0x7A, 0x7B, 0x7C, 0x81, 0xCC}).Draw(t, "codec-tag"), Body: genBytes(t, 1, 4, "codec-body")}
+			s.Descs = append(s.Descs, d)
+			budget -= 2 + len(d.Body)
+		}
 		p.Streams = append(p.Streams, s)
 	}
 	// sometimes fill the section to exactly the 1021-byte limit with one more stream
